@@ -54,6 +54,12 @@ func readTlvStream(
 
 			tlvSize := typ.EncodingLength() + len.EncodingLength() + int(len)
 
+			// With its type and length the block must still fit a packet: otherwise
+			// a full buffer could hold it only partially with no room left to read on
+			if tlvSize > defn.MaxNDNPacketSize {
+				return errors.New("received TLV block larger than the maximum packet size")
+			}
+
 			if recvOff-tlvOff >= tlvSize {
 				// Packet was successfully received, send up to link service
 				onFrame(recvBuf[tlvOff : tlvOff+tlvSize])
